@@ -43,6 +43,8 @@ Verdict(t) ==
      ELSE IF \E i \in 1..Len(t.eqs) : t.eqs[i] # (t.g1 = t.g2) THEN Bad(t, "C20.eq")     \* the same question after hashing / printing / the other way round
      ELSE IF t.eq /\ ~t.hash_eq THEN Bad(t, "C20.hash")
      ELSE IF t.str_ok /\ t.eq_str # (t.g1 = t.g2) THEN Bad(t, "C20.eq_string")
+     ELSE IF ~WellFormedGroups(t.g3) \/ t.text3 # Reduced(t.g3) THEN Bad(t, "plan")
+     ELSE IF \E i \in 1..Len(t.eqs3) : t.eqs3[i] # (t.g1 = t.g3) THEN Bad(t, "C20.eq_string")   \* the string is parsed, also after the object was printed
      ELSE IF t.cde # CDE(t.g1) THEN Bad(t, "C20.cde")
      ELSE IF t.fcde # FilterCDE(t.g1) THEN [Good(t) EXCEPT !.drift = "obis.filter_group_cde"] ELSE Good(t)
   ELSE Bad(t, "plan")
